@@ -221,7 +221,9 @@ func vServerData(id string, data map[string]interface{}) []byte {
 
 const vSubA = `
 interface Node { id: ID! }
-type Human implements Node { id: ID! name: String! }
+type Human implements Node { id: ID! name: String! best: Human meta: Meta }
+type Meta { section: Section }
+type Section { editors: [Human!]! }
 type Query { node(id: ID!): Node me: Human }
 type Subscription { humanChanged: Human! tick: Int }
 `
@@ -233,8 +235,10 @@ type Query { node(id: ID!): Node }
 
 func vSubWorld() *vWorld {
 	w := &vWorld{ents: map[string]vEnt{}, roots: map[string]interface{}{}}
-	w.ents["h1"] = vEnt{"__typename": "Human", "id": "h1"}
-	w.ents["h2"] = vEnt{"__typename": "Human", "id": "h2"}
+	w.ents["h1"] = vEnt{"__typename": "Human", "id": "h1", "best": vRef{"Human", "h2"}, "meta": vRef{"Meta", "m1"}}
+	w.ents["h2"] = vEnt{"__typename": "Human", "id": "h2", "best": nil, "meta": nil}
+	w.ents["m1"] = vEnt{"__typename": "Meta", "id": "m1", "section": vRef{"Section", "s1"}}
+	w.ents["s1"] = vEnt{"__typename": "Section", "id": "s1", "editors": []vRef{{"Human", "h1"}, {"Human", "h2"}}}
 	w.roots["Query.me"] = vRef{"Human", "h1"}
 	return w
 }
@@ -243,7 +247,9 @@ func vSubWorld() *vWorld {
 // (*MultiOpQueryer).Subscribe over the websocket seam
 const vSubMerged = `
 interface Node { id: ID! }
-type Human implements Node { id: ID! name: String! phone(cc: Int): String! }
+type Human implements Node { id: ID! name: String! best: Human meta: Meta phone(cc: Int): String! }
+type Meta { section: Section }
+type Section { editors: [Human!]! }
 type Query { node(id: ID!): Node me: Human }
 type Subscription { humanChanged: Human! tick: Int }
 `
